@@ -120,6 +120,11 @@ class Monitor:
             return
         self._op = ins
         self._pc = pc
+        self._ref = None
+        if self.typemap is not None and ins[0] == 'storeref' and cpu.stack:
+            top = cpu.stack[-1]
+            if top.type.name == 'REFERENCE':
+                self._ref = (top.value.segment, top.value.index)
         if self.check_depth and pc in self.mi.stmt_starts and ins[0] != 'frame':
             fr = self.frames.get(id(cpu.cur_frame))
             if fr is not None:
@@ -175,7 +180,10 @@ class Monitor:
                         del self.frames[k]
         if self.typemap is not None and op.startswith('store'):
             self.stores_checked += 1
-            bad = self.typemap.check_store(cpu, ins, self._pc)
+            if op == 'storeref' and self._ref is not None:
+                bad = self.typemap.check_ref_store(cpu, *self._ref)
+            else:
+                bad = self.typemap.check_store(cpu, ins, self._pc)
             if bad:
                 self.problem('C03:cell-type', dict(bad, tick=n, pc=self._pc,
                                                    line=self.mi.line_of(self._pc)))
